@@ -65,7 +65,7 @@ def logCb (s : State) (kind : String) (p : Packet) : State :=
 def msgRecvPacket (s : State) (p : Packet) (π : Proof) (h : Nat) (errText : String) : State × Res :=
   match liftCore s (s.core.recvPacket H p π h) with
   | (s, .err .unauthorized) =>
-    liftCore s (s.core.writeAck H p (.ackErr "unauthorized"))
+    liftCore s (s.core.writeAck H p (.ackErr "756e617574686f72697a6564"))  -- hex("unauthorized")
   | (s, .err e) => (s, .err e)
   | (s, .ok) =>
     if p.dst == s.core.name then
